@@ -212,9 +212,6 @@ keys:
 			if err != nil {
 				return 0, err
 			}
-			if !d.More() {
-				break keys
-			}
 		case ObjectKeyUnit:
 			if unit != nil {
 				return 0, ErrDuplicatedUnitKey
@@ -222,9 +219,6 @@ keys:
 			unit, err = decodeUnit(d)
 			if err != nil {
 				return 0, err
-			}
-			if !d.More() {
-				break keys
 			}
 		default:
 			if r&RuleDisallowUnknownKeys != 0 {
